@@ -16,7 +16,7 @@ impl Parser {
         is_const: bool,
         is_modify: bool,
     ) -> Result<(Assignment, Option<Ident>), Vec<anyhow::Error>> {
-        let file_name = &input.user_data().get_file_name();
+        let file_name = &input.user_data().get_source_file_name();
 
         let input_span = input.as_span();
 
